@@ -45,7 +45,7 @@ def apply (nc : Bool) (T : Flat) (s : Sys) : Redir → Option (Flat × Sys)
     | .fd m =>
       match T m with
       | none => none
-      | some id => some (if dash then setF (setF T fd (some id)) m none else setF T fd (some id), s)
+      | some id => some (if dash ∧ m ≠ fd then setF (setF T fd (some id)) m none else setF T fd (some id), s)
     | .word p => if fd = 1 ∧ dash = false then outErr nc T s p false else none
   | .outErr p a => outErr nc T s p a
   | .here n c =>
